@@ -103,10 +103,10 @@ Proof.
   lstep H as p Hp. destruct p as [bk ba]. cbv beta iota in H.
   lstep H as u Hu.
   apply batch_by_denom_Some in Hp. destruct Hp as [Hba _].
-  destruct (negb (ba_open ba)); unfold ret in H; inversion H; subst s' r evs.
-  - apply step_ok_refl. exact Hinv.
+  destruct (ba_open ba) eqn:Eopen; cbn [negb] in H; unfold ret in H; inversion H; subst s' r evs.
   - eapply set_batch_ok; [exact Hinv | exact Hba |].
     unfold batch_static. cbn. repeat split; reflexivity.
+  - apply step_ok_refl. exact Hinv.
 Qed.
 
 Lemma h_update_batch_metadata_ok e s issuer denom md s' r evs :
@@ -118,7 +118,7 @@ Proof.
   apply batch_by_denom_Some in Hp. destruct Hp as [Hba _].
   unfold ret in H; inversion H; subst s' r evs.
   eapply set_batch_ok; [exact Hinv | exact Hba |].
-  unfold batch_static. cbn. repeat split; auto.
+  unfold batch_static. cbn. repeat split; auto; intros Hf; congruence.
 Qed.
 
 (* ------------------------------------------------------------------ *)
